@@ -100,11 +100,11 @@ impl<T> RawTable<T> {
     }
 
     pub fn find(&self, hash: u64, eq: impl Fn(&T) -> bool) -> Option<usize> {
-        debug_assert_ne!(self.free, 0);
-
         if self.len == 0 {
             return None;
         }
+
+        debug_assert_ne!(self.free, 0);
 
         debug_assert!(self.data.len().is_power_of_two());
         let mask = self.data.len() - 1;
@@ -127,7 +127,8 @@ impl<T> RawTable<T> {
     }
 
     pub fn find_or_free(&mut self, hash: u64, eq: impl Fn(&T) -> bool) -> Result<usize, usize> {
-        self.reserve(1);
+        // Keep at least one FREE slot after the insertion that may follow, so that probing terminates.
+        self.reserve(2);
 
         debug_assert!(self.data.len().is_power_of_two());
         let mask = self.data.len() - 1;
